@@ -427,18 +427,18 @@ void op_sizes(const Case& c, TaskCtx& t, Outcome& o) {
   if (sks != tc_sk_size_macro[pb] || pks != tc_pk_size_macro[pb] || tc_block_size_macro[pb] != (unsigned long)p.ios)
     CHECK_FAIL("C11.key_size_constant", std::string(p.name) + ": documented key size constants disagree with the size queries");
   if (ss != tc_sig_size_macro[pb])
-    CHECK_FAIL("C13.size_query_differs_from_constant", std::string(p.name) + ": picnic_signature_size = " + std::to_string(ss) + " but the documented constant is " + std::to_string(tc_sig_size_macro[pb]));
+    CHECK_FAIL(owned("C13.size_query_differs_from_constant", {"C11"}), std::string(p.name) + ": picnic_signature_size = " + std::to_string(ss) + " but the documented constant is " + std::to_string(tc_sig_size_macro[pb]));
   if (!name || std::string(name) != p.name)
     CHECK_FAIL("C11.param_name", std::string(p.name) + ": name query returned " + (name ? name : "(null)"));
   if (surface_available(1, pb)) {
     const ParamApi& a = param_api(pb);
     if (a.signature_size() != ss || a.get_private_key_size() != sks || a.get_public_key_size() != pks)
-      CHECK_FAIL("C16.per_parameter_size_queries", std::string(p.name) + ": per-parameter size queries disagree with the generic ones");
+      CHECK_FAIL(owned("C16.per_parameter_size_queries", {"C11", "C13"}), std::string(p.name) + ": per-parameter size queries disagree with the generic ones");
   }
   if (surface_available(2, pb)) {
     const NistApi& na = nist_api(pb);
     if (na.consts[0] != sks || na.consts[1] != pks || na.consts[2] != 4 + ss)
-      CHECK_FAIL("C16.nist_constants", std::string(p.name) + ": CRYPTO_SECRETKEYBYTES/PUBLICKEYBYTES/BYTES disagree with the generic sizes");
+      CHECK_FAIL(owned("C16.nist_constants", {"C13"}), std::string(p.name) + ": CRYPTO_SECRETKEYBYTES/PUBLICKEYBYTES/BYTES disagree with the generic sizes");
   }
   if (c.s("chk").find("c13") != std::string::npos) {
     size_t tm = model::true_max_sig_size(p);
